@@ -187,6 +187,8 @@ func genC15(c *Ctx) *Plan {
 	p.Net.Parts = append(p.Net.Parts, Partition{From: from, To: from + int64(ms(p.Cfg.ProbeIntervalMs))*int64(r.rangeI(3, 8)), A: []int{v}, UDP: true, TCP: r.chance(0.3), OneWay: r.chance(0.4)})
 	p.Net.Loss = []float64{0, 0.05, 0.15}[r.intn(3)]
 	p.Net.Until = base + dur
+	// a peer that stops reading mid-stream: the write times out after partial progress
+	p.Net.StreamBlock = []float64{0, 0.15, 0.3}[r.intn(3)]
 	for i := 0; i < r.rangeI(4, 14); i++ {
 		at := base + r.i64n(dur)
 		node := r.intn(n)
